@@ -88,9 +88,16 @@ func runSolver(ctx context.Context, s solverCfg, file string, timeoutMs int) sol
 	cmd.Stderr = &out
 	_ = cmd.Run()
 	text := out.String()
-	first := strings.TrimSpace(text)
-	if k := strings.Index(first, "\n"); k >= 0 {
-		first = strings.TrimSpace(first[:k])
+	// the verdict is the first line that is not a solver warning (z3 prints
+	// e.g. "WARNING: ... 'if' cannot be used in patterns" before the verdict)
+	first := ""
+	for _, ln := range strings.Split(text, "\n") {
+		ln = strings.TrimSpace(ln)
+		if ln == "" || strings.HasPrefix(ln, "WARNING") {
+			continue
+		}
+		first = ln
+		break
 	}
 	v := "unknown"
 	switch first {
